@@ -199,7 +199,7 @@ section Examples
 
 def exState : State :=
   { afunds := [(1, { balance := 1000 }), (2, { balance := 50 })],
-    ifunds := [(2, { stake := 70, locked := 0, replenished := 70 }), (3, { stake := 40, locked := 10, replenished := 0 })],
+    ifunds := [(2, { stake := 70, locked := 0, replenished := 70 }), (3, { stake := 40, locked := 10, replenished := 10 })],
     iinfo := [(1, { state := .verified, invitees := [2] }),
               (2, { state := .candidate, inviter := some 1 }),
               (3, { state := .verified, delegatee := some 1 })],
@@ -227,5 +227,29 @@ example : validateTx exCfg exState { type := .killInvitee, sender := 4, to := so
 example : validateTx exCfg exState { type := .killDelegator, sender := 4, to := some 3, nonce := 1, epoch := 3 } .inBlock 10 = .err .invalidSender := by decide
 
 end Examples
+
+end IdenaModel.Ledger
+
+namespace IdenaModel.Ledger
+open State
+
+/-- **C12 (transaction part), application side.** A transaction that `ValidateTx` (in-block) accepted never makes
+`applyTxOnState` dereference a nil recipient or a nil attachment (`processTxs` has no `recover`). -/
+theorem validated_apply_no_panic {c : Cfg} {s : State} {tx : Tx} {m : Nat}
+    (hv : validateTx c s tx .inBlock m = .ok) : ∀ h : applyTx c s tx = .panic, False := by
+  intro h
+  have hty := (validate_common hv).typ
+  have he : effect c s tx = none := by
+    unfold applyTx at h
+    split at h; · simp at h
+    split at h; · simp at h
+    split at h
+    · assumption
+    · simp at h
+  revert he
+  cases ht : tx.type <;> cases hto : tx.to <;>
+    simp [typeClauses, ceremonyClauses, ht, hto] at hty <;>
+    simp only [effect, ht, hto] <;>
+    (try (repeat' split)) <;> simp_all [validationBit]
 
 end IdenaModel.Ledger
